@@ -226,8 +226,15 @@ async def frames_job(job):
 
     async def one(cid, items, chunks, fam):
         res = await frames_roundtrip(items, chunks)
-        out.append({"id": cid, "fam": fam, "items": items, "chunks": chunks[:64] if len(chunks) > 64 else chunks,
-                    "nchunks": len(chunks), **res})
+        used, pos = 0, 0                      # chunks actually used before the stream was exhausted
+        total = sum(x["n"] for x in res["wire"])
+        for c in chunks:
+            if pos >= total:
+                break
+            pos += c
+            used += 1
+        out.append({"id": cid, "fam": fam, "items": items, "chunks": chunks[:used] if pos >= total else chunks + [total - pos],
+                    "nchunks": used if pos >= total else used + 1, **res})
 
     if job.get("replay"):
         rc = job["replay"]
@@ -900,8 +907,13 @@ def mc_tasks(ctx):
                   kernel_cfg("spec", 3, ["perr", "kernel_info_request", "forged-sig"], False, ["TRUE"], KERNEL_INV), "holds", 6))
         n = 2
     else:
-        T.append(("Kernel spec, <=3 requests, full universe", "Kernel", kernel_cfg("spec", 3, TAGS_ALL, True, both, KERNEL_INV), "holds", 12))
-        T.append(("Kernel spec, <=4 requests, core universe", "Kernel", kernel_cfg("spec", 4, TAGS_CORE, False, ["TRUE"], KERNEL_INV), "holds", 8))
+        T.append(("Kernel spec, <=3 requests, full universe, one client", "Kernel", kernel_cfg("spec", 3, TAGS_ALL, False, both, KERNEL_INV), "holds", 12))
+        T.append(("Kernel spec, <=3 requests, ok / error+print / forged, two clients", "Kernel",
+                  kernel_cfg("spec", 3, ["ok", "perr", "forged-sig"], True, ["TRUE"], KERNEL_INV), "holds", 6))
+        T.append(("Kernel spec, <=4 requests, error+print / kernel_info / forged", "Kernel",
+                  kernel_cfg("spec", 4, ["perr", "kernel_info_request", "forged-sig"], False, ["TRUE"], KERNEL_INV), "holds", 8))
+        T.append(("Kernel spec, <=4 requests, ok / print / error+print", "Kernel",
+                  kernel_cfg("spec", 4, ["ok", "print", "perr"], False, ["TRUE"], KERNEL_INV), "holds", 8))
         n = 3
     tags_n = TAGS_ALL if q else [t for t in TAGS_ALL if t not in ("stmt", "complete_request", "is_complete_request", "forged-key")]
     rest = [i for i in KERNEL_INV if i != "StdoutAttributed"]
@@ -1299,7 +1311,7 @@ def coverage(ctx, frecs, srecs, frej, srej):
                    "connections, 0-2 identity frames, two iopub subscribers, generated cells), every single-bit corruption of the "
                    "signature/header/parent/metadata/content frame of a small message, wrong keys; non-trivial = at least one "
                    "request reached the kernel; distinct by the whole recording.")
-    ctx.sample({"framing_case": {k: frecs[len(frecs) // 2][k] for k in ("id", "chunks", "nchunks")},
+    ctx.sample({"framing_case": {"id": frecs[len(frecs) // 2]["id"], "chunks": frecs[len(frecs) // 2]["chunks"][:40], "nchunks": frecs[len(frecs) // 2]["nchunks"]},
                 "items": [it["k"] + ":" + ",".join(str(sum(x["n"] for x in f)) for f in it.get("frames", [it.get("body", [])])) for it in frecs[len(frecs) // 2]["items"]]})
     for r in srecs:
         if r["case"]["id"].startswith("m") and len(r["case"]["trace"]) > 12:
